@@ -498,19 +498,24 @@ structure Sigs where
   contract : Bool
 deriving DecidableEq, Repr
 
-/-- rhp/v2/rpc.go `rpcFormContract` from the hard-fork guard to `AddContract` -/
-def rpcForm2 (requireHeight : Nat) (fc : Rev) (expUH height : Nat) (st : Settings) (sg : Sigs) : Res Recorded := do
-  check .afterHardfork (decide (height ≥ requireHeight))     -- rpcLoop: RHP2 is disabled after the require height
+/-- rhp/v2/rpc.go `rpcFormContract` once the request has been read: `height` is the height handed to the
+validator (`sh.chain.Tip().Height`, read AFTER the request body arrived), `st` the settings read when the
+handler started -/
+def rpcForm2Body (requireHeight : Nat) (fc : Rev) (expUH height : Nat) (st : Settings) (sg : Sigs) : Res Recorded := do
   check .afterHardfork (decide (fc.wStart ≥ requireHeight))
   let hostCollateral ← validateFormation fc expUH height st
   check .renterSig (!sg.contract)                            -- validateRenterRevisionSignature
   pure { locked := hostCollateral, rpcRevenue := st.contractPrice, storageRevenue := 0, risked := 0, clearingRPC := 0 }
 
+/-- rhp/v2/rpc.go `rpcFormContract` from the hard-fork guard to `AddContract` (chain tip constant during the RPC) -/
+def rpcForm2 (requireHeight : Nat) (fc : Rev) (expUH height : Nat) (st : Settings) (sg : Sigs) : Res Recorded := do
+  check .afterHardfork (decide (height ≥ requireHeight))     -- rpcLoop: RHP2 is disabled after the require height
+  rpcForm2Body requireHeight fc expUH height st sg
+
 /-- rhp/v2/rpc.go `rpcRenewAndClearContract` from the hard-fork guard to `RenewContract`
 (transaction funding is outside the model) -/
-def rpcRenew2 (fx : Bool) (requireHeight : Nat) (existing renewal : Rev) (finalVals : List Nat)
+def rpcRenew2Body (fx : Bool) (requireHeight : Nat) (existing renewal : Rev) (finalVals : List Nat)
     (expUH height : Nat) (st : Settings) (sg : Sigs) : Res Recorded := do
-  check .afterHardfork (decide (height ≥ requireHeight))     -- rpcLoop
   check .locked (decide (existing.revNo = maxRev))             -- session.ContractRevisable
   check .afterHardfork (decide (renewal.wStart ≥ requireHeight))
   let clearing ← clearingRevision existing finalVals
@@ -526,6 +531,29 @@ def rpcRenew2 (fx : Bool) (requireHeight : Nat) (existing renewal : Rev) (finalV
   let _ ← cadd .usageTotalAdd finalPayment st.contractPrice
   pure { locked := locked, rpcRevenue := st.contractPrice, storageRevenue := storage, risked := risked,
          clearingRPC := finalPayment }
+
+def rpcRenew2 (fx : Bool) (requireHeight : Nat) (existing renewal : Rev) (finalVals : List Nat)
+    (expUH height : Nat) (st : Settings) (sg : Sigs) : Res Recorded := do
+  check .afterHardfork (decide (height ≥ requireHeight))     -- rpcLoop
+  rpcRenew2Body fx requireHeight existing renewal finalVals expUH height st sg
+
+/-! #### the chain moves while an RPC is in flight
+
+The handlers read the chain twice: when the RPC id arrives (`rpcLoop`, `cs := sh.chain.TipState()`: height `h1`)
+and, after the request body has been read, `sh.chain.Tip().Height` (height `h2 ≥ h1`), which is what the validator
+must be given.  `useTip = false` is the stale shape: the validator gets the height captured at `h1`.
+The settings are one snapshot taken when the handler starts.  RHP3 validates against the price table the renter
+pays with (`pt.HostBlockHeight`, `pt.WindowSize`, …): that is the `height` / `st` of `rpcRenew3`. -/
+
+def rpcForm2At (useTip : Bool) (requireHeight : Nat) (fc : Rev) (expUH h1 h2 : Nat) (st : Settings) (sg : Sigs) :
+    Res Recorded := do
+  check .afterHardfork (decide (h1 ≥ requireHeight))
+  rpcForm2Body requireHeight fc expUH (if useTip then h2 else h1) st sg
+
+def rpcRenew2At (fx useTip : Bool) (requireHeight : Nat) (existing renewal : Rev) (finalVals : List Nat)
+    (expUH h1 h2 : Nat) (st : Settings) (sg : Sigs) : Res Recorded := do
+  check .afterHardfork (decide (h1 ≥ requireHeight))
+  rpcRenew2Body fx requireHeight existing renewal finalVals expUH (if useTip then h2 else h1) st sg
 
 /-- rhp/v3/rpc.go `handleRPCRenew` from the hard-fork guard to `RenewContract` (the height check of
 `Serve` is outside: the harness hands the stream to `handleHostStream` directly) -/
